@@ -9,9 +9,9 @@ TRUSTED_COMMON = [
     "the Go code is modelled, not verified: theorems are about the Gallina models; the correspondence run ties model to code on the generated cases only",
 ]
 
-HOOK_COMMITS = []
+HOOK_COMMITS = ["7db9398"]
 NOT_READY = set()   # Props present but suites not yet registered in cmd/vh
-HOOK_PROPS = set()   # properties with hook-based suites in harness/cmd/vhk
+HOOK_PROPS = {"C04", "C05", "C19"}   # properties with hook-based suites in harness/cmd/vhk
 NOTES = "All checks: bin/check <id>. Level proof = Coq theorems about hand-written Gallina models + regenerated tables/facts, tied to /repo by a correspondence run on every check; an implementation-side oracle searches for failing inputs. See DESIGN.md."
 
 PROPS = {}
